@@ -142,6 +142,15 @@ macro_rules! nist_group {
                 let p = (ProjectivePoint::GENERATOR * *s).to_affine();
                 Some(p.to_encoded_point(false).as_bytes().to_vec())
             }
+            /// sk^-1 * T for a point T given in uncompressed form (so that sk * result = T)
+            pub fn inv_mul(sk: &[u8], t: &[u8]) -> Option<Vec<u8>> {
+                let s = scalar(sk)?;
+                use $c::elliptic_curve::Field;
+                let inv: $c::Scalar = Option::from(Field::invert(&*s))?;
+                let p = point(t)?;
+                let q = (ProjectivePoint::from(p) * inv).to_affine();
+                Some(q.to_encoded_point(false).as_bytes().to_vec())
+            }
             /// x-coordinate of sk * pk
             pub fn dh(sk: &[u8], pk: &[u8]) -> Option<Vec<u8>> {
                 let s = scalar(sk)?;
@@ -197,6 +206,24 @@ pub fn dh(kem: KemId, sk: &[u8], pk: &[u8]) -> Option<Vec<u8>> {
         KemId::P256 => g256::dh(sk, pk),
         KemId::P384 => g384::dh(sk, pk),
         KemId::P521 => g521::dh(sk, pk),
+    }
+}
+
+/// A valid public key P such that DH(sk, P) has x-coordinate 0 (the Wycheproof "x = 0" edge case:
+/// the DH result is the prime-order point (0, sqrt(b)), which is *not* the point at infinity and
+/// must be accepted). None for X25519 or if b is a non-residue.
+pub fn zero_x_partner(kem: KemId, sk: &[u8]) -> Option<Vec<u8>> {
+    if kem == KemId::X25519 {
+        return None;
+    }
+    let cv = crate::math::curve(kem);
+    let y = cv.sqrt(&cv.b)?;
+    let t = cv.encode(&crate::math::U::ZERO, &y);
+    match kem {
+        KemId::P256 => g256::inv_mul(sk, &t),
+        KemId::P384 => g384::inv_mul(sk, &t),
+        KemId::P521 => g521::inv_mul(sk, &t),
+        KemId::X25519 => None,
     }
 }
 
